@@ -97,6 +97,11 @@ BASE = [
     ('try.FuncN', 0, 'try/try_op.go', r'^func Func0\['),
     ('try.PureN', 0, 'try/try_op.go', r'^func Pure0\['),
     ('try.UnitN', 0, 'try/try_op.go', r'^func Unit0\('),
+    # ARITY2: hand-written members of the lazy.FuncN / unit.FuncN families
+    ('lazy.FuncN', 1, 'lazy/lazy.go', r'^func Func1\['),
+    ('lazy.FuncN', 2, 'lazy/lazy.go', r'^func Func2\['),
+    ('lazy.FuncN', 3, 'lazy/lazy.go', r'^func Func3\['),
+    ('unit.FuncN', 0, 'unit/unit_op.go', r'^func Func0\('),
 ]
 for _pkg, _file in (('option', 'option/option_op.go'), ('try', 'try/try_op.go')):
     BASE.append((_pkg + '.ChainN', 1, _file, r'^func Chain1\['))
@@ -445,9 +450,17 @@ def _(n):
     return 'return Show(fn1.Merge%d(%s)(any(a[0].Int())))' % (n, ', '.join('F1Of(a[%d])' % (i + 1) for i in range(n)))
 
 
-@emitter('unit.FuncN', 'F xs', 'unit.FuncN', FUNC(1))
+@emitter('unit.FuncN', 'F xs', 'unit.FuncN', FUNC(0))
 def _(n):
+    if n == 0:
+        return 'fn := fnOf(a[0])\n\treturn Show(unit.Func0(func() { fn() })(fp.Unit{}))'
     return 'fn := fnOf(a[0])\n\tx := ints(a[1:])\n\treturn Show(unit.Func%d(%s)(%s))' % (n, nfun(n, ret=''), xs(n))
+
+
+@emitter('lazy.FuncN', 'FW xs', 'lazy.FuncN', lambda L: [1, 2, 3])
+def _(n):
+    return ('fn := fnOf(a[0])\n\tx := ints(a[1:])\n\te := lazy.Func%d(%s)(%s)\n\tEmit("built")\n\tr1 := e.Get()\n\tr2 := e.Get()\n\treturn Show([]any{r1, r2})'
+            % (n, nfun(n), xs(n)))
 
 
 @emitter('lazy.TailCallN', 'FW xs', 'lazy.TailCallN', FUNC(1))
